@@ -303,6 +303,8 @@ class PWorld(TR.World):
         self._acc.clear()
         if not _keep_tables:
             self.tables.get(self.rw.ev, "clear")()
+        # SYMBOL_TABLES.enable_checks(): a non-default configuration (duplicate declarations are then errors of the table)
+        self.tables.get(self.rw.ev, "enable_checks")(bool(opts.pop("symbol_checks", False)))
         reader = self.reader_for(source, mode=mode, files=files, **opts)
         self.reader = reader
         try:
